@@ -42,10 +42,25 @@ Definition lookupRpcService_params (d : lookupRpcService) : list pv :=
 Definition lookupRpcClient_params (d : lookupRpcClient) : list pv :=
   [PB (lookupRpcClient_serviceID d); PB (lookupRpcClient_clientID d)].
 
-(* http lookup: method, URL (as the text String() renders) and client id *)
+(* http lookup: method, URL and client id.
+   lookupHTTPHandler_params takes the URL AS ITS String() FORM, which is what the code compares;
+   lookupHTTPHandler_resolution_params takes the URL's Path, which is what HTTPHandlerController
+   resolves on.  The two differ: URL.String() is not injective on url.URL values
+   (c37_lookup_http_handler_refuted; KNOWN FINDING equiv-merges-lookupHTTPHandler-handlerURL-path). *)
 Definition lookupHTTPHandler_params (d : lookupHTTPHandler) : list pv :=
   [PB (lookupHTTPHandler_handlerMethod d); PB (url_text (lookupHTTPHandler_handlerURL d));
    PB (lookupHTTPHandler_clientID d)].
+Definition lookupHTTPHandler_resolution_params (d : lookupHTTPHandler) : list pv :=
+  [PB (lookupHTTPHandler_handlerMethod d); PB (url_path (lookupHTTPHandler_handlerURL d));
+   PB (lookupHTTPHandler_clientID d)].
+
+(* the witness: url.URL{Host:"x"} and url.URL{Path:"//x"} both render "//x".
+   The harness builds exactly these two values and the correspondence checks that the
+   records below are what the real url.URL values look like (case HttpWitness). *)
+Definition c37_witness_a : lookupHTTPHandler :=
+  mk_lookupHTTPHandler [71;69;84] (mk_url [47;47;120] []) [].
+Definition c37_witness_b : lookupHTTPHandler :=
+  mk_lookupHTTPHandler [71;69;84] (mk_url [47;47;120] [47;47;120]) [].
 
 Definition signalPeer_params (d : signalPeer) : list pv :=
   [PB (signalPeer_signalingID d); PB (signalPeer_localPeerID d); PB (signalPeer_remotePeerID d)].
